@@ -1,6 +1,7 @@
 import AvroModel.Drv.Sexp
 import AvroModel.Drv.C17
 import AvroModel.Drv.Enc
+import AvroModel.Drv.Schema
 open Avro Avro.Sexp Avro.Drv
 
 def dispatch (prop : String) (op : String) (args : List Sexp) : Verdict :=
@@ -8,6 +9,7 @@ def dispatch (prop : String) (op : String) (args : List Sexp) : Verdict :=
   | "C17" => c17 op args
   | "C09" => c09 op args
   | "C16" => c16 op args
+  | "C14" => c14 op args
   | _ => .bad s!"unknown property {prop}"
 
 partial def loop (prop : String) (h : IO.FS.Stream) (out : IO.FS.Stream) : IO Unit := do
